@@ -28,6 +28,7 @@ TECHNIQUE = (
 )
 LEVEL_TEXT = (
     "Theorems C07_mlsx_roundtrip, C07_mlsd_entries_exact, C07_mlst_roundtrip (through the C06 reply framing), C07_list_roundtrip, "
+    "C07_list_mode_roundtrip (all 12 permission bits incl. the S/T letters), "
     "C07_client_list_exact (the Client.list loop and parser chain over an arbitrary directory), C07_list_agrees_with_mlsd, "
     "C07_stat_via_list_exact, C07_ls_date_recent, C07_ls_date_old_or_future, "
     "C07_ls_date_window_witness and the calendar round trips are proved for all Z timestamps (4-digit years), all sizes, all "
@@ -752,18 +753,29 @@ def correspondence(ctx, budget=None):
         mal.append(mutate(rng, rng.choice(lines + mal[:15]), [";", "=", " ", "a", "T", "\t", "é", "İ", "\n", "\r", "="]))
     allp = [(l, True) for l in lines] + [(l, False) for l in mal]
     mo = ctx.model([(21, [l]) for l, _ in allp])
+    nmlsx_err = 0
     for idx, ((l, gen), o) in enumerate(zip(allp, mo)):
         ctx.case(("mlsx-parse", l))
         ctx.traces_impl += 1
-        p, entry = client.parse_mlsx_line(l)
-        mname = str(pathlib.PurePosixPath(sx.txt(o[0])))
-        ment = [(sx.txt(k), sx.txt(v)) for k, v in o[1]]
-        if mname != str(p) or ment != list(entry.items()):
-            ctx.disagree("parse_mlsx_line", l, [mname, ment], [str(p), list(entry.items())])
+        try:
+            p, entry = client.parse_mlsx_line(l)
+            im = ["ok", str(p), list(entry.items())]
+        except (ValueError, KeyError, IndexError) as e:
+            p, entry = None, {}
+            im = ["err", err_tag(e)]
+        if o[0] == -1:
+            mm = ["err", o[1]]
+        else:
+            mm = ["ok", str(pathlib.PurePosixPath(sx.txt(o[1][0]))), [(sx.txt(k), sx.txt(v)) for k, v in o[1][1]]]
+        nmlsx_err += im[0] == "err"
+        if mm != im:
+            ctx.disagree("parse_mlsx_line", l, mm, im)
         if gen:
             name, sz, ct, mt, kind, ex = ents[idx]
             bad = []
-            if str(p) != name:
+            if p is None:
+                bad.append("unparsable")
+            elif str(p) != name:
                 bad.append("name")
             if entry.get("type") != ["file", "dir", "unknown"][kind]:
                 bad.append("type")
@@ -782,6 +794,7 @@ def correspondence(ctx, budget=None):
                                "exists": ex, "line": l, "parsed": [str(p), dict(entry)]})
     ctx.count("mlsx:entries built+parsed", len(ents))
     ctx.count("mlsx:malformed lines", len(mal))
+    ctx.count("mlsx:lines rejected with ValueError (no pathname)", nmlsx_err)
     ctx.sample({"stream": "mlsx", "line": lines[0]})
     xcheck += [(21, [l], o) for (l, _), o in list(zip(allp, mo))[:10]]
 
@@ -818,6 +831,10 @@ def correspondence(ctx, budget=None):
     ctx.count("list:mode strings (malformed)", len(modestr))
 
     lents = []
+    # former witnesses of F13b (repaired): set-uid / set-gid / sticky without the execute bit, files and directories
+    wm, wn, wn2 = cases[0]
+    for wmode in (0o104644, 0o102644, 0o101644, 0o107644, 0o104755, 0o041777, 0o041776, 0o046644, 0o100000 | 0o7000, 0o040000 | 0o7777):
+        lents.append(("f", 5, wn - 100 if MIN_E <= wn - 100 else wm, wn, wn, wmode, 1))
     for _ in range(10000 if thorough else 3000):
         name = gen_name(rng)
         size = rng.choice([0, 1, 10, 2**32, 2**40, rng.randrange(0, 2**40), rng.randrange(0, 5000)])
@@ -856,7 +873,7 @@ def correspondence(ctx, budget=None):
     nows = [naive(lents[i][4]) if i is not None else naive(rng.choice(cases)[2]) for _, i in allp]
     mo = ctx.model([(23, [H, T, dt6(d), l]) for (l, _), d in zip(allp, nows)])
     nerr = 0
-    st_known, lead_known = 0, 0
+    st_known, lead_known, st_seen = 0, 0, 0
     for (l, i), d, o in zip(allp, nows, mo):
         ctx.case(("list-parse", l, d))
         ctx.traces_impl += 1
@@ -871,6 +888,8 @@ def correspondence(ctx, budget=None):
         fmode = stat_mod.filemode(mode)
         if fmode[0] not in "-d":
             continue  # the property speaks about files and directories
+        if "S" in fmode or "T" in fmode:
+            st_seen += 1
         full = impl_parse_list(client, l, d)
         want_date, region = date_oracle(m, n, n2, 0)
         bad = []
@@ -884,11 +903,16 @@ def correspondence(ctx, budget=None):
                 bad.append("type")
             if v[6] != str(sz):
                 bad.append("size")
+            if v[3] != str(nl):
+                bad.append("links")
+            perm = mode & 0o7777
+            if v[2] != (perm - 1 if perm & 0o1001 == 0o1001 else perm):
+                bad.append("mode")
             if want_date is not None and v[7] != want_date:
                 bad.append("modify")
         if bad:
-            if "S" in fmode or "T" in fmode:
-                key = "c07-list-mode-S-or-T"
+            if ("S" in fmode or "T" in fmode) and bad == ["unparsable"]:
+                key = "c07-list-mode-S-or-T"  # F13b (repaired): unlisted, reported if it ever returns
                 st_known += 1
             elif name != name.lstrip() and bad == ["name"]:
                 key = "c07-list-name-leading-whitespace"
@@ -901,7 +925,8 @@ def correspondence(ctx, budget=None):
     ctx.count("list:entries built+parsed", len(lents))
     ctx.count("list:link/malformed lines", len(extra))
     ctx.count("list:parser errors (any stream)", nerr)
-    ctx.count("list:oracle hits on S/T modes (known finding)", st_known)
+    ctx.count("list:oracle hits on S/T modes (F13b, repaired: must be 0)", st_known)
+    ctx.count("list:file/dir entries with S/T mode letters built+parsed", st_seen)
     ctx.count("list:oracle hits on leading-whitespace names (known finding)", lead_known)
     xcheck += [(23, [H, T, dt6(d), l], o) for (l, _), d, o in list(zip(allp, nows, mo))[:12]]
     xcheck += [(22, [H, 0, n, [sz, 0, m, nl, mode], name], o)
@@ -911,7 +936,7 @@ def correspondence(ctx, budget=None):
     nglue = 0
     glue_client = aioftp.Client()
     dot_lines_list = ["drwxr-xr-x 2 none none 0 Jan  1 10:00 .", "drwxr-xr-x 2 none none 0 Jan  1 10:00 ..", "drwxr-xr-x 2 none none 0 Jan  1 10:00 ..."]
-    dot_lines_mlsd = ["Type=dir; .", "Type=dir; ..", "Type=cdir; .", "Type=dir; ...", "Type=dir; .a"]
+    dot_lines_mlsd = ["Type=dir; .", "Type=dir; ..", "Type=cdir; .", "Type=dir; ...", "Type=dir; .a", "x=1; .", "x=1; ..", "Type=file;", "Type=file; "]
     plan_cases = []
     for _ in range(600 if thorough else 200):
         k = rng.choice([0, 1, 2, 3, 5, 9])
@@ -965,7 +990,13 @@ def correspondence(ctx, budget=None):
         for _ in range(rng.choice([0, 1, 2])):
             batch.insert(rng.randrange(len(batch) + 1), rng.choice(dot_lines_mlsd + mal[:15]))
         # the model takes PurePosixPath(name) = name (one path component): keep lines whose name pathlib leaves alone
-        batch = [l for l in batch if str(client.parse_mlsx_line(l)[0]) == l.rstrip().partition(" ")[2]]
+        def pathlib_leaves_alone(l):
+            try:
+                return str(client.parse_mlsx_line(l)[0]) == l.rstrip().partition(" ")[2]
+            except ValueError:
+                return True  # no pathname: the parser raises, nothing for pathlib to normalise
+
+        batch = [l for l in batch if pathlib_leaves_alone(l)]
         mlsd_batches.append(batch)
     mo = ctx.model([(32, [b]) for b in mlsd_batches])
     for b, o in zip(mlsd_batches, mo):
@@ -1147,7 +1178,7 @@ async def _wire(ctx, tp, rng, thorough, net):
         now = rng.choice([ymd(2024, 3, 1, 0, 0, 30), ymd(2025, 1, 1, 0, 10, 0), ymd(2023, 7, 2, 12, 0, 0), ymd(2100, 3, 1, 5, 0, 0),
                           ymd(2024, 8, 29, 12, 0, 0), ymd(2001, 1, 1, 0, 0, 0), ymd(2024, 2, 29, 23, 59, 30), ymd(2028, 12, 31, 23, 59, 59)]) + rng.choice(DELTAS)
         now2 = now + rng.choice(SKEWS)
-        st_round = rnd == rounds - 1  # last round: one set-uid entry without x (F13b seen from Client.list)
+        st_round = rnd == rounds - 1  # last round: one set-uid entry without x on disk (the F13b witness at the wire; repaired)
         ents = tree_spec(rng, now, rng.choice([0, 1, 7, 12, 25]) if not st_round else 4)
         for backend in ("memory", "pathio", "asyncpathio"):
             tdir = None
@@ -1237,8 +1268,8 @@ async def _wire(ctx, tp, rng, thorough, net):
                                 try:
                                     info = await client.stat("d/" + name)
                                 except (aioftp.StatusCodeError, ValueError) as ex:
-                                    if flavour == "no-mlsx" and (name != name.lstrip() or has_st):
-                                        continue  # the two LIST findings, already reported by the listing above
+                                    if flavour == "no-mlsx" and name != name.lstrip():
+                                        continue  # F13a, already reported by the listing above
                                     info = {"error": repr(ex)[:200]}
                                 nstat += 1
                                 ctx.case(("wire-stat", backend, flavour, name, e["mtime"]))
@@ -1278,6 +1309,8 @@ def known(ctx):
     now = ymd(2024, 6, 1, 12, 0, 0)
     for f in ctx.kf:
         for key in f.get("keys", []):
+            if key != "c07-list-name-leading-whitespace":
+                continue  # F13b is repaired: its witness is a corpus case of the LIST stream now
             ok = replay_key(server, client, tp, key, now)
             if ok is False:
                 ctx.known_reproduced(f["id"], f["what"])
@@ -1329,7 +1362,11 @@ def replay(ctx, data):
     if key == "c07-mlsx-roundtrip":
         st = mkstats(r["size"], r["ctime"], r["mtime"], 1, 0) if r["exists"] else None
         line = impl_build_mlsx(server, st, r["kind"], r["name"])
-        p, entry = client.parse_mlsx_line(line)
+        try:
+            p, entry = client.parse_mlsx_line(line)
+        except ValueError as e:
+            print("line:", repr(line), "->", repr(e))
+            return False
         print("line:", repr(line), "->", str(p), dict(entry))
         return str(p) == r["name"] and (not r["exists"] or (entry.get("size") == str(r["size"]) and entry.get("modify") == fmt14(naive(r["mtime"]), "second")))
     if key == "c07-mlsx-time":
